@@ -175,6 +175,24 @@ Theorem C13_lossless_unsized_last : forall mtu init lst st, 2 <= mtu < 2097152 -
 Proof. exact av1_lossless_u. Qed.
 Print Assumptions C13_lossless_unsized_last.
 
+(* the deprecated receive path in general (AV1Packet, a fresh one per packet, feeding one
+   frame.AV1 assembler): for any well-chained packet sequence it returns exactly the glued
+   elements - fragments across packets included - and keeps exactly the pending fragment *)
+From RTP Require Import Proofs.C13_LegacyStream.
+
+Theorem C13_legacy_sem : forall pks pending b, chain_ok pending pks -> (pending = true <-> b <> []) ->
+  legacy_run (optb b) (map spk_bytes pks) = Some (optb (snd (glue b pks)), fst (glue b pks)).
+Proof. exact legacy_run_stream. Qed.
+Print Assumptions C13_legacy_sem.
+
+(* ... hence, end to end: the payloader's output through the deprecated path yields the transmitted
+   OBUs (as sent, without size fields) in order, nothing left pending *)
+Theorem C13_lossless_legacy : forall mtu obus, 2 <= mtu < 2097152 -> Forall wf_iobu obus ->
+  exists pkts, av1_payload mtu (stream obus) = Ok pkts /\
+    legacy_run None pkts = Some (None, map io_elem (filter transmitted obus)).
+Proof. exact av1_lossless_legacy. Qed.
+Print Assumptions C13_lossless_legacy.
+
 Example C13_lossless_nonvacuous :
   let obus := [mkIobu 2 None false []; mkIobu 1 None false [10; 11]; mkIobu 6 (Some (1, 0, 0)) false [1; 2; 3; 4; 5; 6; 7]] in
   Forall wf_iobu obus /\
